@@ -33,6 +33,17 @@ locking from one row to the next*.  Two things follow that a functional reading 
     engines of the ordinary generator and switches off what the variant names, leaving the rest as drawn; batches of 1..8
     rows, sometimes after an earlier call.  Cases have the ordinary shape and are judged by the ordinary comparison, which
     includes the shapes and the rows of `output_values` and `values` (`c02.same_tables`).
+
+`reused buffers`
+    "histories": an application that processes batch after batch does not allocate new arrays for each of them.  It keeps one
+    array per input variable (or one input matrix), writes the next batch into it in place (`buffer[:] = column`) and
+    processes again - handing the arrays over again before each call, or only once (a variable without range locking holds
+    the caller's array itself; `Engine.input_values = matrix` gives every variable a column VIEW of the matrix).  "The arrays
+    of N values" of a call are what those arrays hold when `process()` starts, so the case reads back what the variables
+    hold (`c02.run_reused`) and runs exactly those rows one after another with floats on a second engine that lives through
+    the same history.  Nothing that was derived from an earlier content of the same array objects may survive into the next
+    call.  The case carries {"calls": [rows, rows(, rows)], "reuse": mode} and "rows" (= the last batch, for the ordinary
+    comparison from a fresh engine and the model).
 """
 from __future__ import annotations
 
@@ -282,3 +293,28 @@ def gen_no_value_per_row_cases(ctx):
         if rng.random() < 0.3:
             case["first"] = G.gen_rows(rng, desc, rng.choice([1, 2, 3]), special=False)
         yield case
+
+
+REUSE = ["arrays-reassigned", "arrays-refilled", "matrix-reassigned", "matrix-refilled"]
+
+
+def gen_reused_buffer_cases(ctx):
+    """engines of the ordinary generator x two or three batches of equal length written, one after the other, into the same
+    per-variable arrays / the same input matrix"""
+    rng = ctx.rng
+    for i in range(ctx.scale(48, 480)):
+        reuse = REUSE[i % len(REUSE)]
+        desc = G.gen_engine(rng, activation="general", n_in=rng.choice([1, 2, 2, 3]))
+        for v in desc["inputs"]:
+            # a range-locked variable holds a clipped COPY of what it is given, the others hold the caller's array (or a
+            # view of the caller's matrix): both kinds, mostly the second
+            if rng.random() < 0.6:
+                v["lock_range"] = False
+            if rng.random() < 0.7:
+                v["enabled"] = True
+        for o in desc["outputs"]:
+            if rng.random() < 0.4:
+                o["lock_previous"] = True
+        n = rng.choice([1, 2, 3, 4, 5, 8])
+        calls = [G.gen_rows(rng, desc, n, special=c > 0 and rng.random() < 0.5) for c in range(rng.choice([2, 2, 3]))]
+        yield {"engine": desc, "rows": calls[-1], "calls": calls, "reuse": reuse, "family": "reused buffers: " + reuse}
